@@ -74,6 +74,7 @@ type Report struct {
 func buildReport(ps *PropSpec, out *runOutput, opts Options, wall float64, partial bool) *Report {
 	rep := &Report{Prop: ps, Tier: opts.Tier, Backends: map[string]int{}, Files: out.ContractFiles, LoadS: out.LoadS, WallS: wall, Partial: partial, Extras: map[string]any{}}
 	rep.EngineErrs = append(rep.EngineErrs, out.EngineErrs...)
+	rep.Extras["structural_conditions_checked"] = out.StructuralN
 	known := map[string]KnownFinding{}
 	for _, k := range loadKnownFindings() {
 		if k.Property == ps.ID && k.Status == "known" {
@@ -143,7 +144,11 @@ func buildReport(ps *PropSpec, out *runOutput, opts Options, wall float64, parti
 		path := filepath.Join(runDir, fmt.Sprintf("engine_error_%d.json", i))
 		writeJSON(path, map[string]any{"property": ps.ID, "kind": "engine-error", "obligation": "engine/" + firstWords(e), "detail": e,
 			"explanation": "the contracts could not be bound to, or the verifier could not process, the current source; obligations that depend on it are undischarged"})
-		rep.ViolLines = append(rep.ViolLines, fmt.Sprintf("VIOLATION property=%s replay=%s obligation=engine-error no-failing-input-found", ps.ID, path))
+		kind := "engine-error"
+		if strings.HasPrefix(e, "structural:") {
+			kind = "structural-condition"
+		}
+		rep.ViolLines = append(rep.ViolLines, fmt.Sprintf("VIOLATION property=%s replay=%s obligation=%s no-failing-input-found", ps.ID, path, kind))
 		rep.Violations++
 	}
 	for i, e := range rep.VacuityErrs {
